@@ -69,8 +69,11 @@ def load_known():
 
 def select(reg, prop, tier, only=None):
     sel = []
+    kind = os.environ.get("VF_KIND")
     for name, h in reg.items():
         if prop not in h.props:
+            continue
+        if kind and h.kind != kind:
             continue
         if tier == "quick" and h.tier != "quick":
             continue
@@ -111,12 +114,13 @@ def cmd_check(prop, tier, seed, jobs, only=None, verbose=False):
     fp = tree_fingerprint()
     os.makedirs(os.path.join(ROOT, "replays"), exist_ok=True)
     evdir = os.environ.get("VF_EVIDENCE_DIR") or os.path.join(ROOT, "evidence")
-    if only and not os.environ.get("VF_EVIDENCE_DIR"):
+    if (only or os.environ.get("VF_KIND")) and not os.environ.get("VF_EVIDENCE_DIR"):
         evdir = os.path.join(ROOT, "scratch", "partial-evidence")  # a filtered run never overwrites the real evidence
     os.makedirs(evdir, exist_ok=True)
 
     violations, undecided, crashes, known_seen = [], [], [], []
     negative_ok = []
+    slowest = []
     by_backend = {"z3": 0, "cvc5": 0, "evaluated-concretely": 0}
     obligations = discharged = 0
     named = named_ok = 0
@@ -202,6 +206,7 @@ def cmd_check(prop, tier, seed, jobs, only=None, verbose=False):
                     by_backend["z3"] += c["discharged"] - c.get("cvc5", 0) - c.get("trivial", 0)
                     if c["status"] == "proved":
                         named_ok += 1
+                    slowest.append((round(c.get("tmax", 0.0), 3), f"{hn}:{cn}"))
                     if len(samples) < 6:
                         samples.append(dict(obligation=f"{hn}:{cn}", vcs=c["vcs"], discharged=c["discharged"],
                                             solver_s=c.get("time"), status=c["status"]))
@@ -249,6 +254,7 @@ def cmd_check(prop, tier, seed, jobs, only=None, verbose=False):
             checker_cmd=cmd,
             backends={"z3": z3_version(), "cvc5": "second opinion on z3 'unknown'"},
             discharged_by_backend=by_backend,
+            slowest_single_queries_s=sorted(slowest, reverse=True)[:8],
             solver_s=round(solver_s, 2),
             trusted_base=sorted(trusted) + ["CPython 3.12 interpreter, numpy object-dtype dot/inner/prod (executed, not modelled)",
                                             "z3 4.x/5.x SMT solver (cvc5 on unknowns)", "vfw engine (symx.py, harness.py): cross-checked against CPython on %d/%d path models this run" % (xc_ok, xc_models)],
